@@ -8,8 +8,10 @@ LEVEL = "exploration"
 TECHNIQUE = ("differential runtime monitor vs a Core-semantics reference (CScriptNum, GetOp, CheckMinimalPush); exhaustive "
              "small integers / short byte strings / every push length across the opcode boundaries")
 RULE = ("cases: (i) integers - every |v| <= 2^18 (thorough 2^22), +-2^k+d for k <= 72 (thorough 130), random by bit length; "
-        "(ii) candidate encodings - every byte string of length <= 2 (thorough <= 3), boundary-biased strings to 9 bytes; "
-        "(iii) pushes - every one- and two-byte value, every data length 0..600, 65,400..65,600, 69,990..70,000 with "
+        "(ii) candidate encodings - every byte string of length <= 2 (thorough <= 3), boundary-biased strings of 3..11 bytes and of "
+        "12..521 bytes; "
+        "(iii) pushes - every one- and two-byte value, every data length 0..600, 65,400..65,600, 69,990..70,000 and, in between, "
+        "2^k-1 / 2^k / 2^k+1 for k = 10..15, round lengths and a few random ones, with "
         "zero / 0xff / 0x01.. / 0x81.. / random contents, lists of pushes; (iv) truncations - every push form (direct, "
         "PUSHDATA1/2/4, minimal or not) cut at every point of the length field and at start / middle / last byte of the "
         "data, at pc 0 and after a prefix; (v) scripts - every known opcode alone and in pairs, random sequences of 0..200 "
@@ -35,14 +37,16 @@ ASSUMPTIONS = [
     "'known opcodes' are the opcodes Core names: 0x4f..0xb9 and 0xff (OP_INVALIDOPCODE), plus the push forms",
     "'the consensus minimal-push rule accepts' is read as: reference CheckMinimalPush accepts the emitted opcode AND "
     "pycoin's own implementation of that rule (get_opcode / get_opcodes with verify_minimal_data=True) does not reject it",
-    "'reported as malformed' is read as get_opcode returning is_ok == False / get_opcodes yielding data None for the push "
-    "opcode / the interpreter refusing the script; an unrelated exception is tolerated as a report too, but NOT the report "
+    "'reported as malformed' is read as get_opcode returning a false is_ok (any falsy value; for a complete push any truthy "
+    "one) / get_opcodes yielding data None for the push opcode / the interpreter refusing the script; an unrelated exception is "
+    "tolerated as a report too, but NOT an iterator that just ends in front of the truncated push (nothing reported), and NOT the report "
     "pycoin gives for a complete push that is not in the shortest form (learned at run time from pycoin itself on complete "
     "non-shortest pushes: exception type + error_code(), or a call of the non_minimal_data_handler passed to the "
     "ScriptStreamer constructor): the reference classifies a truncated push as malformed whether or not minimal pushes are "
     "demanded (Core: GetOp fails -> BAD_OPCODE before CheckMinimalPush is reached)",
     "opcode_list/disassemble of a script ending in a truncated push: only that the truncated push is not shown as a [data] "
-    "token and that the tokens of the complete instructions before it are those of that prefix alone",
+    "token and, when the list is instruction-wise (one token per complete instruction, at most one more), that the tokens of "
+    "the complete instructions before it are those of that prefix alone",
     "decoding of NON-minimal number encodings without require_minimal, rejection of non-minimal pushes under "
     "verify_minimal_data, and the text form of scripts outside 'known opcodes and minimal pushes' are not judged "
     "(the statement is silent; C03 covers the interpreter side)",
@@ -53,6 +57,10 @@ EXPLANATION = ("every IntStreamer / ScriptStreamer / ScriptTools call is compare
                "exact value and accept/reject for decoders, is_ok for truncated pushes, byte identity for "
                "compile(disassemble(s))")
 TIMEOUT = {"quick": 600, "thorough": 3 * 3600}
+
+
+MID_LENGTHS = [601, 1000, 1023, 1024, 1025, 2047, 2048, 2049, 4095, 4096, 4097, 8191, 8192, 10000, 16383, 16384, 16385, 20000,
+               32767, 32768, 32769, 40000, 49151, 49152, 50000, 60000, 65000, 65399]
 
 
 def exhaustive(tier):
@@ -75,6 +83,9 @@ def plan(tier, seed):
     shards.append({"kind": "push_small", "two": 1, "n": 3000 if q else 200000, "label": "push_small"})
     for lo, hi in ((0, 200), (200, 400), (400, 601), (65400, 65601), (69990, 70001)):
         shards.append({"kind": "push_len", "lo": lo, "hi": hi, "reps": 1 if q else 12, "label": "push%d" % lo})
+    # the stretch between the boundary sweeps (601..65,399): powers of two and their neighbours, round numbers, a few random
+    shards.append({"kind": "push_len", "lo": 601, "hi": 65400, "lens": MID_LENGTHS, "extra": 6 if q else 400,
+                   "reps": 1 if q else 2, "label": "push_mid"})
     shards.append({"kind": "trunc", "n": 4000 if q else 200000, "label": "trunc"})
     for p in range(2 if q else 4):
         shards.append({"kind": "truncm", "n": 1500 if q else 60000, "part": p, "parts": 2 if q else 4, "label": "truncm%d" % p})
@@ -129,7 +140,7 @@ def check_int(v, rec, M):
             if st != "ok":
                 rec.violation("scriptnum.rejects_own_encoding" if rm else "scriptnum.decode_raises",
                               {"kind": "int", "v": v}, back, v)
-            elif back != v or isinstance(back, bool):
+            elif back != v:
                 rec.violation("scriptnum.decode_not_inverse", {"kind": "int", "v": v}, back, v)
 
 
@@ -224,8 +235,9 @@ def run_numbytes(spec, rec, M):
     top = [0x00, 0x80, 0x01, 0x81, 0x7f, 0xff]
     below = [0x00, 0x7f, 0x80, 0xff, 0x01]
     for i in range(spec["n"]):
-        L = rng.choice([3, 3, 4, 4, 5, 5, 6, 7, 8, 9, rng.randrange(3, 12)])
+        L = rng.choice([3, 3, 4, 4, 5, 5, 6, 7, 8, 9, rng.randrange(3, 12), rng.choice([12, 13, 16, 17, 32, 33, 64, 65, 75, 76, 255, 256, 520, 521])])
         b = bytearray(rng.getrandbits(8) for _ in range(L))
+        rec.ev("numbytes.len_3..8" if L <= 8 else "numbytes.len_9..11" if L <= 11 else "numbytes.len_12..")
         mode = rng.random()
         if mode < 0.7:
             b[-1] = rng.choice(top)
@@ -279,7 +291,7 @@ def check_push(case, rec, M):
     # the decoder reads it back
     rec.ev("get_opcode")
     st, r = observe(M.streamer.get_opcode, p, 0)
-    if st != "ok" or r[1] is None or bytes(r[1]) != d or r[2] != len(p) or r[3] is not True or r[0] != p[0]:
+    if st != "ok" or r[1] is None or bytes(r[1]) != d or r[2] != len(p) or not r[3] or r[0] != p[0]:
         rec.violation("push.decode_mismatch." + R.minimal_form(d), case,
                       r if st != "ok" else [r[0], None if r[1] is None else len(r[1]), r[2], r[3]], [p[0], len(d), len(p), True])
     # and the minimal-push rule accepts it
@@ -287,7 +299,7 @@ def check_push(case, rec, M):
     st, r = observe(M.streamer.get_opcode, p, 0, verify_minimal_data=True)
     if st != "ok":
         rec.violation(_reject_mech(d, p), case, r, "accepted")
-    elif r[1] is None or bytes(r[1]) != d or r[2] != len(p) or r[3] is not True:
+    elif r[1] is None or bytes(r[1]) != d or r[2] != len(p) or not r[3]:
         rec.violation("push.decode_mismatch_under_minimal." + R.minimal_form(d), case, [r[0], r[2], r[3]], [p[0], len(p), True])
     if case.get("wide"):
         check_push_wide(case, d, p, rec, M)
@@ -301,7 +313,7 @@ def check_push_wide(case, d, p, rec, M):
     st, r = observe(M.streamer.get_opcode, p, 0, True)
     if st != "ok":
         rec.violation(_reject_mech(d, p), case, r, "accepted")
-    elif r[1] is None or bytes(r[1]) != d or r[2] != len(p) or r[3] is not True:
+    elif r[1] is None or bytes(r[1]) != d or r[2] != len(p) or not r[3]:
         rec.violation("push.decode_mismatch_under_minimal." + R.minimal_form(d), case, [r[0], r[2], r[3]], [p[0], len(p), True])
     for raising in (0, 1):
         pst, ptools, log = _private(M, raising)
@@ -311,7 +323,7 @@ def check_push_wide(case, d, p, rec, M):
             st, r = observe(pst.get_opcode, b"\x51" + p, 1, verify_minimal_data=vmd)
             if log or (st != "ok" and isinstance(r, _NonMinimalReport)):
                 rec.violation(_reject_mech(d, p) + ".handler_called", case, list(log[:2]), "handler not called")
-            elif st != "ok" or r[1] is None or bytes(r[1]) != d or r[2] != len(p) + 1 or r[3] is not True or r[0] != p[0]:
+            elif st != "ok" or r[1] is None or bytes(r[1]) != d or r[2] != len(p) + 1 or not r[3] or r[0] != p[0]:
                 rec.violation("push.decode_mismatch." + R.minimal_form(d), case,
                               r if st != "ok" else [r[0], None if r[1] is None else len(r[1]), r[2], r[3]], [p[0], len(d), len(p) + 1, True])
         del log[:]
@@ -420,6 +432,13 @@ def _instr_class(op, data):
     return "opcode"
 
 
+def _length_class(L):
+    for name, top in (("0..75", 75), ("76..255", 255), ("256..600", 600), ("601..65399", 65399), ("65400..65535", 65535)):
+        if L <= top:
+            return name
+    return "65536.."
+
+
 def _patterns(rng, L):
     pats = [b"\x00", b"\xff", b"\x01", b"\x81", b"\x4c", bytes(rng.getrandbits(8) for _ in range(min(max(L, 1), 600)))]
     return pats
@@ -448,8 +467,12 @@ def run_push_small(spec, rec, M):
 
 def run_push_len(spec, rec, M):
     rng = shard_rng(spec["seed"], PROPERTY, spec["tier"], spec["shard"])
+    lens = range(spec["lo"], spec["hi"])
+    if spec.get("lens"):
+        lens = sorted(set(list(spec["lens"]) + [rng.randrange(spec["lo"], spec["hi"]) for _ in range(spec.get("extra", 0))]))
     for rep in range(spec["reps"]):
-        for L in range(spec["lo"], spec["hi"]):
+        for L in lens:
+            rec.ev("push.length_class." + _length_class(L))
             for pat in _patterns(rng, L):
                 if rep and len(pat) == 1:
                     continue
@@ -492,7 +515,7 @@ def check_trunc(case, rec, M):
     where = "length_field" if cut - 1 < width else "data"
     rec.ev("trunc." + where)
     if st == "ok":
-        if r[3] is not False:
+        if r[3]:
             rec.violation("push.truncated_reported_ok." + where, case,
                           [r[0], None if r[1] is None else bytes(r[1])[:8], r[2], r[3]], "is_ok False")
     else:
@@ -620,7 +643,7 @@ def _pycoin_class(M, call):
     'exception' (anything else raised)."""
     st, r = observe(call)
     if st == "ok":
-        return ("ok" if r[3] is not False else "malformed"), [r[0], None if r[1] is None else bytes(r[1])[:8], r[2], r[3]]
+        return ("ok" if r[3] else "malformed"), [r[0], None if r[1] is None else bytes(r[1])[:8], r[2], r[3]]
     if isinstance(r, _NonMinimalReport) or _exc_sig(r) in _nonmin_sigs(M):
         return "nonminimal", r
     return "exception", r
@@ -716,6 +739,10 @@ def check_truncm(case, rec, M):
                     rec.violation("get_opcodes.truncated_wrong_instruction", case, [g[0], g[2], g[3]], [head[0], pc])
                 elif g[1] is not None:
                     rec.violation("get_opcodes.truncated_yields_data." + where, case, [g[0], bytes(g[1])[:8], g[2], g[3]], "data None")
+            elif isinstance(got, StopIteration):
+                # the iterator simply ended in front of the truncated push: nothing was reported about it at all
+                rec.violation("get_opcodes.truncated_silently_dropped." + where, case, "iterator exhausted at pc %d" % pc,
+                              "the push opcode with data None, or an exception")
             elif _exc_sig(got) in _nonmin_sigs(M):
                 rec.violation("get_opcodes.truncated_reported_non_minimal." + form, case, got, "data None (malformed)")
             else:
@@ -732,20 +759,25 @@ def check_truncm(case, rec, M):
                 else:
                     st, g = observe(lambda: next(ptools.get_opcodes(script, vmd, pc)))
                     if st != "ok":
-                        cls, detail = ("nonminimal" if isinstance(g, _NonMinimalReport) else "exception"), g
+                        cls, detail = ("nonminimal" if isinstance(g, _NonMinimalReport) else
+                                       "dropped" if isinstance(g, StopIteration) else "exception"), g
                     else:
                         cls, detail = ("malformed" if g[1] is None else "ok"), [g[0], None if g[1] is None else bytes(g[1])[:8], g[2], g[3]]
                 if log or cls == "nonminimal":
                     rec.violation("push.truncated_calls_non_minimal_handler." + form, case, list(log[:2]) or detail, "handler not called")
                 elif cls == "ok":
                     rec.violation("push.truncated_reported_ok." + where, case, detail, "is_ok False")
+                elif cls == "dropped":
+                    rec.violation("get_opcodes.truncated_silently_dropped." + where, case, "iterator exhausted at pc %d" % pc,
+                                  "the push opcode with data None, or an exception")
     # 4. the text side: a truncated push is not shown as a data push, and what precedes it is shown as it is alone
     rec.ev("opcode_list.truncated")
     st, lst = observe(M.tools.opcode_list, script)
     st0, lst0 = observe(M.tools.opcode_list, prefix)
     if st == "ok" and st0 == "ok" and isinstance(lst, list) and len(lst0) == nprefix:
         if lst[:nprefix] != lst0:
-            rec.violation("opcode_list.truncated_changes_preceding_instructions", case, lst[:4], lst0[:4])
+            if nprefix <= len(lst) <= nprefix + 1:      # another shape for a malformed script is not ours to judge
+                rec.violation("opcode_list.truncated_changes_preceding_instructions", case, lst[:4], lst0[:4])
         elif len(lst) > nprefix and str(lst[nprefix]).startswith("["):
             rec.violation("opcode_list.truncated_shown_as_data", case, lst[nprefix], "not a [data] token")
     # 5. the interpreter, with and without VERIFY_MINIMALDATA, push in the locking script / in the unlocking script / in a
@@ -971,7 +1003,7 @@ def _hist_probes(M, s, d, v):
         out.append(("compile_push_data_list", p if st != "ok" else bytes(p)[:8], exp2[:8]))
     for vm in (False, True):
         st, r = observe(M.streamer.get_opcode, exp, 0, verify_minimal_data=vm)
-        if st != "ok" or r[1] is None or bytes(r[1]) != d or r[2] != len(exp) or r[3] is not True or r[0] != exp[0]:
+        if st != "ok" or r[1] is None or bytes(r[1]) != d or r[2] != len(exp) or not r[3] or r[0] != exp[0]:
             out.append(("get_opcode", r if st != "ok" else [r[0], r[2], r[3]], [exp[0], len(exp), True]))
     enc = R.serialize(v)
     for IS in M.ints:
@@ -1143,25 +1175,45 @@ def run_hist(spec, rec, M):
 _RUN = {"ints": run_ints, "int_edges": run_int_edges, "numbytes": run_numbytes, "push_small": run_push_small,
         "push_len": run_push_len, "trunc": run_trunc, "truncm": run_truncm, "script_enum": run_script_enum, "scripts": run_scripts, "hist": run_hist}
 _REQ = {"ints": ["int_to_script_bytes", "int_from_script_bytes"], "int_edges": ["int_to_script_bytes", "int_from_script_bytes"],
-        "numbytes": ["int_from_script_bytes.require_minimal", "numbytes.minimal", "numbytes.nonminimal"],
-        "push_small": ["compile_push_data", "get_opcode", "get_opcode.verify_minimal_data", "compile_push_data_list", "get_opcodes"],
-        "push_len": ["compile_push_data", "get_opcode", "get_opcode.verify_minimal_data"],
+        "numbytes": ["int_from_script_bytes.require_minimal", "int_from_script_bytes", "int_to_script_bytes", "numbytes.minimal",
+                     "numbytes.nonminimal", "numbytes.len_3..8", "numbytes.len_9..11", "numbytes.len_12.."],
+        "push_small": ["compile_push_data", "get_opcode", "get_opcode.verify_minimal_data", "compile_push_data_list", "get_opcodes",
+                       "get_opcodes.verify_minimal_data", "get_opcodes.start_pc", "compile_push_data_list.none_entries", "write_push_data",
+                       "get_opcode.verify_minimal_data.positional", "private_handler.own_push", "vm.own_push.pubkey", "vm.own_push.sig",
+                       "push.form.op_0", "push.form.op_n", "push.form.op_1negate", "push.form.direct"],
+        "push_len": ["compile_push_data", "get_opcode", "get_opcode.verify_minimal_data", "get_opcode.verify_minimal_data.positional",
+                     "private_handler.own_push", "compile_push_data_list", "write_push_data", "get_opcodes",
+                     "get_opcodes.verify_minimal_data"],
         "trunc": ["get_opcode.truncated", "trunc.length_field", "trunc.data"],
         "truncm": ["get_opcode.truncated.minimal_on", "get_opcode.truncated.minimal_off", "get_opcodes.truncated.minimal_on",
-                   "private_handler.truncated.minimal_on", "opcode_list.truncated", "vm.truncated.pubkey.minimaldata",
-                   "vm.truncated.sig.minimaldata", "vm.truncated.unexecuted.minimaldata", "vm.truncated.pubkey.plain",
+                   "get_opcodes.truncated.minimal_off", "private_handler.truncated.minimal_on", "private_handler.truncated.minimal_off",
+                   "opcode_list.truncated", "vm.truncated.pubkey.minimaldata", "vm.truncated.sig.minimaldata",
+                   "vm.truncated.unexecuted.minimaldata", "vm.truncated.pubkey.plain", "vm.truncated.sig.plain", "vm.truncated.unexecuted.plain",
                    "truncm.direct.data.none", "truncm.direct.data.one_const", "truncm.direct.data.one_other",
                    "truncm.direct.data.several", "truncm.pushdata.length_field.none", "truncm.pushdata.data.none",
                    "truncm.pushdata.data.one_const", "truncm.pushdata.data.one_other", "truncm.pushdata.data.several"],
         "script_enum": ["compile", "disassemble", "opcode_list", "get_opcodes"],
         "scripts": ["compile", "disassemble", "opcode_list", "get_opcodes", "get_opcodes.verify_minimal_data", "get_opcodes.start_pc"],
         "hist": ["hist.query_after_disturbance", "hist.disturbance_raised", "hist.disturbance.bad_text", "hist.disturbance.iterator", "hist.disturbance.private_instance",
-                 "get_opcodes.interleaved"]}
+                 "hist.disturbance.bad_expression", "hist.disturbance.nonminimal_decode", "hist.disturbance.truncated",
+                 "hist.disturbance.bad_arg", "get_opcodes.interleaved"]}
+
+# push forms / length classes each push_len shard must have reached (by its first length)
+_REQ_PUSH_LEN = {0: ["push.form.op_0", "push.form.op_n", "push.form.op_1negate", "push.form.direct", "push.form.pushdata1",
+                     "push.length_class.0..75", "push.length_class.76..255", "vm.own_push.pubkey", "vm.own_push.sig"],
+                 200: ["push.form.pushdata1", "push.form.pushdata2", "push.length_class.76..255", "push.length_class.256..600",
+                       "vm.own_push.pubkey", "vm.own_push.sig"],
+                 400: ["push.form.pushdata2", "push.length_class.256..600", "vm.own_push.pubkey", "vm.own_push.sig"],
+                 601: ["push.form.pushdata2", "push.length_class.601..65399"],
+                 65400: ["push.form.pushdata2", "push.form.pushdata4", "push.length_class.65400..65535", "push.length_class.65536.."],
+                 69990: ["push.form.pushdata4", "push.length_class.65536.."]}
 
 
 def run_shard(spec, rec):
     M = _imports()
     rec.require(*_REQ[spec["kind"]])
+    if spec["kind"] == "push_len":
+        rec.require(*_REQ_PUSH_LEN.get(spec["lo"], []))
     _RUN[spec["kind"]](spec, rec, M)
 
 
